@@ -72,6 +72,10 @@ JsonD     == {<<>>, <<2, 0>>}
 Json1     == {<<2, 0>>}
 GenES1    == {<<"err", 1>>, <<"skip", 1>>}
 MapE0     == {<<"err", 0>>}
+FaultsOp  == FaultsES \cup {<<"eof", 1>>}
+GenE1     == {<<"err", 1>>}
+MapNE0    == {<<"none", 0>>, <<"err", 0>>}
+GenOp     == {<<"none", 0>>, <<"err", 1>>, <<"skip", 1>>, <<"eof", 1>>}
 
 --------------------------------------------------------------------------
 Tm(op, kids, data, datas, fn, fault, k, n) ==
